@@ -51,6 +51,15 @@ def curated():
         ('star', ('str', '!')), ('where', T, ('py', 'lambda v: v == o'))]))}))
     out.append(('apply-bound', {'start': ('let', 'x', T, ('seq', [
         ('apply', T, ('py', 'lambda v: (v, x)')), ('lapply', ('py', 'lambda v: [x, v]'), T)]))}))
+    # |> and <| whose function operand is itself parsed from the input (operands are parsed in source
+    # order: a then f for `a |> f`, f then a for `f <| a`)
+    MK = ('apply', T, ('py', 'lambda t: lambda d: (t, d)'))                  # consumes one token, yields a function
+    out.append(('lapply-consuming-function', {'start': ('star', ('lapply', MK, D))}))
+    out.append(('apply-consuming-function', {'start': ('star', ('apply', D, MK))}))
+    out.append(('lapply-nested-function', {'start': ('seq', [('lapply', MK, T), ('opt', ('lapply', MK, ('lapply', MK, D)))])}))
+    out.append(('apply-chain', {'start': ('star', ('apply', ('apply', T, ('py', 'lambda v: (v,)')), ('py', 'lambda v: v + v')))}))
+    out.append(('lapply-chain', {'start': ('star', ('lapply', ('py', 'lambda v: (v,)'), ('lapply', ('py', 'lambda v: v + v'), T)))}))
+    out.append(('apply-bound-function', {'start': ('let', 'f', MK, ('seq', [('apply', D, ('py', 'f')), ('lapply', ('py', 'f'), T)]))}))
     # a name re-bound from its own previous value (the inner initialiser reads the outer binding; the
     # outer binding is not read again afterwards)
     out.append(('rebind-from-previous', {'start': ('let', 'x', D, ('let', 'x', ('py', 'x + 10'), R(1, 'x')))}))
